@@ -1,0 +1,5 @@
+//go:build !verif
+
+package metadata
+
+func verifGate(point, id string) {}
